@@ -9,7 +9,7 @@ import numpy as np
 from harness import gen
 from harness.codec_checks import real_write, real_build
 from harness.obj_checks import _f, _snapshot
-from harness.refcodec import encode
+from harness.refcodec import encode, EncodeError
 
 
 # ------------------------------------------------------------------------------------------------ C15
@@ -379,6 +379,18 @@ def _vary(name, rng, b):
             c = clone(); c.cam_data = list(c.cam_data) + [gen.bts_cam(rng, 70) if int(b.format) == 2 else gen.seelab_cam(rng)]
             c.cameras_calibration_map = np.append(c.cameras_calibration_map, np.int16(77)).astype("<i2"); out.append(("one camera appended", c))
             c = clone(); v = c.calibration_volume_size.copy(); v[0] = 1.5 if v[0] != 1.5 else 9.0; c.calibration_volume_size = v; out.append(("volume changed", c))
+            if b.cam_data and int(b.format) == 2:
+                # coefficient tables that differ by a zero at the front / at the back of the 70 slots
+                for which, edit in (("x table: first coefficient zero vs that coefficient removed", lambda a: (np.concatenate([[0.0], a[1:]]), a[1:])),
+                                    ("y table shifted by one slot", lambda a: (np.concatenate([[0.0], a[:-1]]), a))):
+                    c1, c2 = clone(), clone()
+                    attr = "x_distortion_coefficients" if which.startswith("x") else "y_distortion_coefficients"
+                    base = np.array(getattr(c1.cam_data[0], attr), dtype="<f8")
+                    base[1] = 2.5
+                    v1, v2 = edit(base)
+                    setattr(c1.cam_data[0], attr, np.array(v1, dtype="<f8"))
+                    setattr(c2.cam_data[0], attr, np.array(v2, dtype="<f8"))
+                    out.append((which, (c1, c2)))
         elif name == "OpticalSetup":
             c = clone(); c.channels.append(gen.opt_channel(rng)); out.append(("one channel appended", c))
             if b.channels:
@@ -442,6 +454,16 @@ def check_c14(seed, tier):
                 fails.append(_f("C14", "C14.exception", name, f"comparison after an in-place edit raised {e!r}", dict(block=name, index=i, variation="in-place edit after comparison"), seed))
             for desc, c in _vary(name, rng, b):
                 n += 1
+                if isinstance(c, tuple):            # a pair of variations to be compared with each other
+                    try:
+                        x, y = c
+                        if encode(name, x)[0] != encode(name, y)[0] and (eq(x, y) or eq(y, x)):
+                            fails.append(_f("C14", "C14.differs", name, f"blocks that differ ({desc}) compare equal", dict(block=name, index=i, variation=desc), seed))
+                    except EncodeError:
+                        pass
+                    except Exception as e:
+                        fails.append(_f("C14", "C14.exception", name, f"comparison of blocks that differ ({desc}) raised {e!r}", dict(block=name, index=i, variation=desc), seed))
+                    continue
                 try:
                     if encode(name, c)[0] == encode(name, b)[0]:
                         continue        # the variation did not change the content after all
@@ -496,6 +518,20 @@ def check_c14(seed, tier):
                         fails.append(_f("C14", "C14.file_differs", "Tdf", "files with different numbers of blocks compare equal", case, seed))
             except Exception as e:
                 fails.append(_f("C14", "C14.exception", "Tdf", f"file comparison raised {e!r}", case, seed))
+            # the same blocks stored in another order: another list of blocks
+            if len(blocks) >= 2:
+                try:
+                    pe = os.path.join(d, f"e{i}.tdf")
+                    Tdf.new(pe)
+                    with Tdf(pe).allow_write() as t:
+                        for b in blocks[1:] + blocks[:1]:
+                            t.add_block(b)
+                    n += 1
+                    if feq(pa, pe) or feq(pe, pa):
+                        fails.append(_f("C14", "C14.file_differs", "Tdf", "files holding the same blocks in a different order compare equal", dict(files=names, index=i, variation="block order"), seed))
+                    os.remove(pe)
+                except Exception as e:
+                    fails.append(_f("C14", "C14.exception", "Tdf", f"comparison of files with reordered blocks raised {e!r}", case, seed))
             # the same blocks in a file with another number of table slots: a different file
             try:
                 from harness.container_checks import make_file
